@@ -16,37 +16,7 @@
 (*   x = exact sum * 10^9 ;  x - x/10^15 <= got - phc < x + 1 + x/10^15    *)
 (*   and got - phc >= 0.                                                   *)
 (***************************************************************************)
-EXTENDS Big, TLC, Json, IOUtils, Sequences
-
-K == 96                                 \* every wire exponent used is >= -(K - 1)
-RECURSIVE P2(_)
-P2(n) == IF n = 0 THEN <<1>> ELSE LET p == P2(n - 1) IN Add(p, p)
-P2K == P2(K)
-G9 == <<0, 0, 0, 1>>                    \* 10^9
-
-Abs(i) == IF i < 0 THEN -i ELSE i
-\* |c| * 2^(e + K + shift) as a natural (shift = -1 for the halved delay)
-Scaled(t, shift) == Mul(FromNat(Abs(t[1])), P2(t[2] + K + shift))
-
-\* numerator over 2^K of (|corr| + disp + delay/2) * 10^9
-Num(v) == Mul(Add(Add(Scaled(v.corr, 0), Scaled(v.disp, 0)), Scaled(v.delay, -1)), G9)
-
-RECURSIVE HalfN(_, _)
-HalfN(a, n) == IF n = 0 THEN a ELSE HalfN(Half2(a), n - 1)
-\* ceil(N / 2^K)
-CeilDiv(N) == HalfN(Add(N, Sub(P2K, <<1>>)), K)
-Exact(v) == CeilDiv(Num(v))             \* the README formula without the PHC term
-
-Accept(v) ==
-  LET got == S(v.got.n, v.got.m)
-      core == SSub(got, SNat(FromNat(v.phc)))          \* bound minus the PHC error bound
-      N == Num(v)
-      tol == Add(DropLimbs(N, 5), <<1>>)
-      lhs == Mul(core.mag, P2K)                         \* core * 2^K
-  IN /\ ~got.neg
-     /\ ~core.neg
-     /\ Leq(Sub(N, IF Leq(tol, N) THEN tol ELSE N), lhs)            \* core >= x - tol
-     /\ Less(lhs, Add(Add(N, P2K), tol))                            \* core <  x + 1 + tol
+EXTENDS BoundOps, Json, IOUtils
 
 Bnd == ndJsonDeserialize(IOEnv.BND)
 ASSUME PrintT(<<"CHECKED", Len(Bnd)>>)
